@@ -8,7 +8,8 @@
 (*        [k |-> "map"] [k |-> "array"] [k |-> "chan"] [k |-> "iface"] [k |-> "func"] *)
 (* Forms  "ptr" (a non-nil pointer to a T value) | "nonptr" | "nilptr" | "nil" *)
 (* Filled values  [k |-> "str", v] [k |-> "bool", v] [k |-> "num", v]         *)
-(*        [k |-> "list", v |-> Seq] [k |-> "rec", f |-> Seq] [k |-> "keep"]   *)
+(*        [k |-> "list", v |-> Seq, rev |-> BOOLEAN (the elements may also be  *)
+(*        in the reverse order)] [k |-> "rec", f |-> Seq] [k |-> "keep"]      *)
 (*        (an untagged field: left untouched) or [t |-> "err", why]           *)
 (***************************************************************************)
 EXTENDS XPath
@@ -40,33 +41,37 @@ SeqErr(gs) == IF \E i \in 1..Len(gs) : IsUErr(gs[i]) /\ gs[i].why # "unk" THEN g
               ELSE gs[CHOOSE i \in 1..Len(gs) : IsUErr(gs[i])]
 HasErr(gs) == \E i \in 1..Len(gs) : IsUErr(gs[i])
 
-RECURSIVE FillValue(_, _, _, _)
+\* may the node-set produced by expression e arrive in descending document order?  (C03: only when it uses a reverse
+\* axis and is not a union) - a slice filled from it then holds its elements in that "result order"
+MayRev(e) == UsesReverseAxis(e) /\ e.op # "union"
+RECURSIVE FillValue(_, _, _, _, _)
 FillStruct(d, env, fs, n) ==
   LET gs == [i \in 1..Len(fs) |->
                IF fs[i].tag.op = "none" THEN [k |-> "keep"]
                ELSE IF ~fs[i].exported THEN UErr("unexported-field")
                ELSE LET r == Eval(d, env, fs[i].tag, Ctx(n)) IN
-                    IF IsErr(r) THEN UErr(IF r.why \in SkipWhys THEN "unk" ELSE "tag-query-failed") ELSE FillValue(d, env, fs[i].t, r)]
+                    IF IsErr(r) THEN UErr(IF r.why \in SkipWhys THEN "unk" ELSE "tag-query-failed") ELSE FillValue(d, env, fs[i].t, r, MayRev(fs[i].tag))]
   IN IF HasErr(gs) THEN SeqErr(gs) ELSE [k |-> "rec", f |-> gs]
-FillValue(d, env, T, r) ==
+\* rev: the node-set r may arrive in descending order (see MayRev); a "list" then carries rev |-> TRUE and is matched in either orientation
+FillValue(d, env, T, r, rev) ==
   CASE T.k = "prim" -> PrimOf(d, T.p, r)
-    [] T.k = "ptr" -> FillValue(d, env, T.e, r)              \* freshly allocated; the harness looks through pointers
+    [] T.k = "ptr" -> FillValue(d, env, T.e, r, rev)         \* freshly allocated; the harness looks through pointers
     [] T.k = "slice" ->
          LET el == StripPtr(T.e) IN
          IF el.k = "slice" THEN UErr("multi-dimensional-slice")
          ELSE IF el.k \notin {"prim", "struct"} THEN UErr("unsupported-element")
          ELSE IF r.t # "ns" THEN UErr("slice-needs-node-set")
          ELSE LET ids == Asc(r.v)
-                  gs == [i \in 1..Len(ids) |-> FillValue(d, env, el, NS({ids[i]}))]
-              IN IF HasErr(gs) THEN SeqErr(gs) ELSE [k |-> "list", v |-> gs]
+                  gs == [i \in 1..Len(ids) |-> FillValue(d, env, el, NS({ids[i]}), FALSE)]
+              IN IF HasErr(gs) THEN SeqErr(gs) ELSE [k |-> "list", v |-> gs, rev |-> rev]
     [] T.k = "struct" ->
          IF r.t # "ns" \/ Cardinality(r.v) # 1 THEN UErr("struct-needs-one-node")
          ELSE FillStruct(d, env, T.f, MinOf(r.v))
     [] OTHER -> UErr("unsupported-kind")
 
 \* the whole call: how the target is passed matters
-UnmarshalCall(d, env, form, T, r) ==
+UnmarshalCall(d, env, form, T, r, rev) ==
   IF form # "ptr" THEN UErr("target-not-a-non-nil-pointer")
   ELSE IF StripPtr(T).k \notin {"struct", "slice"} THEN UErr("unsupported-kind")
-  ELSE FillValue(d, env, T, r)
+  ELSE FillValue(d, env, T, r, rev)
 =============================================================================
